@@ -799,3 +799,77 @@ def guard_add_mismatch(fn_node):
                 out.append((c, f"guard-add-mismatch:{cont}", f"`if {tested} not in {cont}` guards `{A.unparse(c)}`: what is inserted is not what was tested, and `{tested}` itself is never "
                             f"inserted, so the test stays true for it"))
     return out
+
+
+def implicit_concat_in_collection(tree, src):
+    """``("/etc", "/opt" "/home", "/var")`` — a missing comma in a tuple / list / set of string literals silently glues two
+    elements into one (``"/opt/home"``) and both intended elements drop out of the collection."""
+    import io
+    import tokenize
+    out = []
+    for n in ast.walk(tree):
+        if not (isinstance(n, (ast.Tuple, ast.List, ast.Set)) and len(n.elts) >= 2 and all(isinstance(e, ast.Constant) and isinstance(e.value, str) for e in n.elts)):
+            continue
+        for e in n.elts:
+            seg = ast.get_source_segment(src, e)
+            if not seg:
+                continue
+            try:
+                toks = [t for t in tokenize.generate_tokens(io.StringIO(seg).readline) if t.type == tokenize.STRING]
+            except Exception:
+                continue
+            if len(toks) > 1 and all(len(ast.literal_eval(t.string)) < 40 for t in toks):
+                out.append((e, f"implicit-concatenation:{e.value[:30]}", f"the element `{seg[:50]}` of a collection of string literals is two literals glued together by a missing comma: "
+                            f"the collection holds {e.value!r} instead of the two intended entries"))
+    return out
+
+
+_RE_CALLS = {"compile", "match", "search", "fullmatch", "sub", "split", "findall", "finditer", "regexp", "demand_compile_regexp"}
+
+
+def regex_punctuation_range(tree):
+    """``[A-Za-z0-9_+-.]`` — inside a character class a ``-`` between two punctuation characters forms a *range*
+    (``+-.`` is ``+ , - .``), silently admitting characters that were never listed."""
+    from . import rx
+    import re as _re
+    try:
+        import re._parser as sp
+        import re._constants as sc
+    except ImportError:  # pragma: no cover
+        import sre_parse as sp
+        import sre_constants as sc
+    out = []
+
+    def ranges(t, acc):
+        for op, av in t:
+            if op == sc.IN:
+                acc.extend(a2 for o2, a2 in av if o2 == sc.RANGE)
+            elif op == sc.SUBPATTERN:
+                ranges(av[3], acc)
+            elif op == sc.BRANCH:
+                for alt in av[1]:
+                    ranges(alt, acc)
+            elif op in (sc.MAX_REPEAT, sc.MIN_REPEAT):
+                ranges(av[2], acc)
+            elif op in (sc.ASSERT, sc.ASSERT_NOT):
+                ranges(av[1], acc)
+    for c in ast.walk(tree):
+        if not (isinstance(c, ast.Call) and (A.unparse(c.func).split(".")[-1] in _RE_CALLS) and c.args):
+            continue
+        for a in c.args[:1]:
+            pieces = [x.value for x in ast.walk(a) if isinstance(x, ast.Constant) and isinstance(x.value, str)]
+            for pat in pieces:
+                if "[" not in pat or "-" not in pat:
+                    continue
+                try:
+                    t = sp.parse(pat)
+                except Exception:
+                    continue
+                acc = []
+                ranges(t, acc)
+                for lo, hi in acc:
+                    if not (chr(lo).isalnum() and chr(hi).isalnum()):
+                        extra = "".join(chr(x) for x in range(lo + 1, hi) if True)
+                        out.append((c, f"regex-punctuation-range:{chr(lo)}-{chr(hi)}", f"the character class in {pat[:50]!r} contains the range `{chr(lo)}-{chr(hi)}` "
+                                    f"(a `-` that is not first or last in the class): besides the two endpoints it admits {extra!r}"))
+    return out
